@@ -558,11 +558,36 @@ def r4_species(ctx):
             want = (f"int({a})", f"int({G}[{gi}])")
             ctx.check(pairs == [want], EL, "Element.__init__", f"{kind} with a charge suffix ({form}) keeps the charge",
                       detail=[list(p_) for p_ in pairs], expected=[f"int({a})", f"int(groups[{gi}])"])
-    sel = [n for n in ast.walk(fn) if isinstance(n, ast.If) and norm(n.test) == "self.isotope"]
-    ok = len(sel) == 1 and "self.get_isotope(" in norm(sel[0].body[0]) and len(sel[0].orelse) == 1 and isinstance(sel[0].orelse[0], ast.If) \
-        and norm(sel[0].orelse[0].test) == "self.natural" and "self.get_natural(" in norm(sel[0].orelse[0].body[0]) \
-        and "self.get_abundant(" in norm(sel[0].orelse[0].orelse[0])
-    ctx.check(ok, EL, "Element.__init__", "explicit isotope > natural mean > most abundant isotope", detail=None)
+    # which isotope data are looked up: a table over (isotope given, natural mode) read from the paths
+    from ..flowexpr import paths as _paths
+    what = "explicit isotope > natural mean > most abundant isotope"
+    ISO = {"self.isotope": True, "self.isotope is not None": True, "self.isotope is None": False}
+    NAT = {"self.natural": True}
+    cells, undecided = {}, 0
+    for q in _paths(fn):
+        if q.status == "raise":
+            continue
+        txt = " ".join(norm(e.resolved) for e in q.events if e.resolved is not None and isinstance(e.resolved, ast.AST))
+        got = tuple(g for g in ("get_isotope", "get_natural", "get_abundant") if f"self.{g}(" in txt)
+        if not got:
+            continue          # nucleon branch etc.: no isotope table involved
+        iso = nat = None
+        for t in q.tests():
+            k = norm(t.resolved)
+            if k in ISO:
+                iso = t.extra == ISO[k]
+            if k in NAT:
+                nat = t.extra == NAT[k]
+        if iso is None or (iso is False and nat is None):
+            undecided += 1
+            continue
+        cells.setdefault((iso, nat if not iso else None), set()).add(got)
+    wantc = {(True, None): {("get_isotope",)}, (False, True): {("get_natural",)}, (False, False): {("get_abundant",)}}
+    bad = {str(k): sorted(v) for k, v in cells.items() if v != wantc.get(k)}
+    if bad:
+        ctx.violated(EL, "Element.__init__", what, detail={"(isotope given, natural mode) -> lookups": bad}, expected={str(k): sorted(v) for k, v in wantc.items()})
+    else:
+        ctx.form(set(cells) == set(wantc) and not undecided, EL, "Element.__init__", what, detail={"cells": sorted(map(str, cells)), "paths without the two tests": undecided})
 
 
 def r5_group_indices(ctx):
